@@ -492,6 +492,28 @@ func genRootFamily(rng *rand.Rand, base string, idx int) []*Plan {
 	}
 	det = append(det, Op{Op: "Revert", Snap: 0}, Op{Op: "Finalise"})
 	plans = append(plans, mk(fmt.Sprintf("%s-%d-detour", base, idx), append(det, ws...), false))
+	// the block executed, committed, rolled back and executed again on the warm ledger (same root as the first time and as a
+	// ledger that never saw the rolled-back block); and the same with other values in the rolled-back block
+	nb := 0
+	for _, o := range prefix {
+		if o.Op == "Commit" {
+			nb++
+		}
+	}
+	if nb > 0 {
+		again := append(append([]Op{}, ws...), Op{Op: "Flush"}, Op{Op: "Commit"}, Op{Op: "Rollback", T: nb})
+		plans = append(plans, mk(fmt.Sprintf("%s-%d-again", base, idx), append(again, perm...), false))
+		var other []Op
+		for _, o := range ws {
+			x := o
+			if x.Kind == "st" {
+				x.V = "detour"
+			}
+			other = append(other, x)
+		}
+		other = append(other, Op{Op: "Set", A: acctNames[rng.Intn(2)], Kind: "st", K: pick(keys), V: "gone"}, Op{Op: "Flush"}, Op{Op: "Commit"}, Op{Op: "Rollback", T: nb})
+		plans = append(plans, mk(fmt.Sprintf("%s-%d-rolled", base, idx), append(other, ws...), false))
+	}
 	// single-field perturbations
 	for i := range ws {
 		pert := append([]Op{}, ws...)
